@@ -303,7 +303,7 @@ def worker(acc, shard, nshards, tier, seed):
         do_prune = case.get('max_step') is None and (case.get('penalty') is None or r == c)
         nt = check_case(acc, R, case, do_prune)
         acc.case(sub, nontrivial=nt)
-        if acc.states % 9973 == 1:
+        if not acc.samples or acc.states % 9973 == 1:
             acc.sample(case)
 
 
